@@ -150,9 +150,11 @@ POS_ALLOW = dict(file="src/state.rs", container="AtomicPosition", name="allow", 
 
 _POS_FRAME = ("frame", "final(self).capacity@ == old(self).capacity@ && final(self).prev@ == old(self).prev@ && final(self).start == old(self).start")
 POS_INC = dict(file="src/state.rs", container="AtomicPosition", name="inc", sig_rewrites=[SELF_MUT], rewrites=[AORD(1)],
-               ensures=[("C07-inc-wraps", "final(self).pos@ as nat == (old(self).pos@ as nat + delta as nat) % 0x1_0000_0000_0000_0000"), _POS_FRAME])
+               ensures=[("C07-inc-wraps", "final(self).pos@ as nat == (old(self).pos@ as nat + delta as nat) % 0x1_0000_0000_0000_0000"), _POS_FRAME,
+                        ("C07-inc-is-one-atomic-read-modify-write", "final(self).pos.rmws@ == old(self).pos.rmws@ + 1 && final(self).pos.stores == old(self).pos.stores")])
 POS_DEC = dict(file="src/state.rs", container="AtomicPosition", name="dec", sig_rewrites=[SELF_MUT], rewrites=[AORD(1)],
-               ensures=[("C07-dec-wraps", "final(self).pos@ as int == (old(self).pos@ as int - delta as int) % 0x1_0000_0000_0000_0000"), _POS_FRAME])
+               ensures=[("C07-dec-wraps", "final(self).pos@ as int == (old(self).pos@ as int - delta as int) % 0x1_0000_0000_0000_0000"), _POS_FRAME,
+                        ("C07-dec-is-one-atomic-read-modify-write", "final(self).pos.rmws@ == old(self).pos.rmws@ + 1 && final(self).pos.stores == old(self).pos.stores")])
 
 LIMITER_SPEC_NOPOS = r"""
 // ---- abstract token bucket (written from the property text: burst B, one token per interval I)
